@@ -212,17 +212,17 @@ MODELLED = {
     "C07": ["pkg/builder/assignment.go", "pkg/builder/model/node.go", "pkg/builder/model/struct.go", "pkg/builder/method.go",
             "pkg/builder/model/method.go", "pkg/parser/comment.go"] + F_HOOKS,
     "C08": F_METHOD + ["pkg/parser/method.go", "pkg/parser/comment.go"],
-    "C09": F_PARSER + ["pkg/parser/comment.go", "pkg/option/option.go"],
+    "C09": F_PARSER + ["pkg/parser/comment.go", "pkg/option/option.go", "pkg/option/pattern_matcher.go"],
     "C10": F_HOOKS + ["pkg/parser/comment.go", "pkg/builder/method.go"],
     "C11": F_PARSER,
     "C12": ["pkg/parser/parser.go"] + F_RUNNER,
     "C13": F_RUNNER + ["pkg/util/import.go", "pkg/parser/parser.go"],
-    "C14": F_PARSER + F_NOTATION + ["pkg/builder/method.go", "pkg/util/import.go"] + F_HOOKS,
-    "C15": F_RUNNER,
+    "C14": F_PARSER + F_NOTATION + F_BUILDER + ["pkg/builder/method.go", "pkg/util/import.go"] + F_HOOKS,
+    "C15": F_RUNNER + ["pkg/parser/parser.go:NewParser", "pkg/parser/parser.go:overlayForPreviousOutput"],
     "C16": ["pkg/builder/assignment.go:assignmentBuilder.sliceToSlice", "pkg/builder/assignment.go:assignmentBuilder.structFieldAndStruct",
             "pkg/util/types.go"],
     "C17": ["pkg/parser/interface.go", "pkg/parser/parser.go", "pkg/util/ast.go"],
-    "C18": F_RUNNER,
+    "C18": F_RUNNER + ["pkg/logger/logger.go"],
     "C19": ["pkg/option/"],
 }
 
@@ -292,7 +292,8 @@ PROPS = {
     "C11": {
         "bridge": TABLES,
         "extra_modules": ["Convergen.Props.C03"],
-        "sweeps": [sweep_front("layout", 200, 6000, cats=["doc"])],
+        "sweeps": [sweep_front("layout", 200, 6000, cats=["doc"]),
+                   sweep_front("selection", 60, 2000, cats=["doc"])],
         "rule": "layout-focused setup files (declarations of every kind around and between converter interfaces, doc/line/block "
                 "comments in every position, both constraint spellings, go:generate lines); judged on the AST: every non-converter "
                 "declaration present unchanged (code), every comment line except directives / converter docs / notation lines "
@@ -338,7 +339,8 @@ PROPS = {
         "bridge": RENDER + TABLES + NODES + DECISIONS,
         "sweeps": [sweep_front("notations", 160, 4000, cats=["body", "slice", "stderr"]),
                    sweep_front("nesting", 80, 2000, cats=["body", "slice", "stderr"]),
-                   sweep_front("casefold", 60, 2000, cats=["body", "slice", "stderr"])],
+                   sweep_front("casefold", 60, 2000, cats=["body", "slice", "stderr"]),
+                   sweep_front("scoping", 60, 2000, cats=["body", "slice", "stderr"])],
         "extra_modules": ["Convergen.Props.C04", "Convergen.Props.BuilderInv"],
         "rule": FRONT_RULE % "notations" + SPEC_RULE,
         "explanation": "precedence chain skip > conv > map > $n-map > literal > default proved clause by clause on matchField; "
@@ -437,7 +439,8 @@ PROPS = {
     "C14": {
         "bridge": TABLES + DECISIONS,
         "sweeps": [sweep_front("malformed", 200, 6000, cats=["exit", "stderr"]),
-                   sweep_front("mixed", 80, 3000, cats=["exit", "stderr"])],
+                   sweep_front("mixed", 80, 3000, cats=["exit", "stderr"]),
+                   sweep_front("plain", 40, 1500, cats=["exit", "stderr"])],
         "rule": FRONT_RULE % "malformed",
         "explanation": "model functions are total; diagnostics of notation lines are positioned; crash sites of the notation "
                        "parser characterised exactly (hook lookup with <2 params; :literal with a Unicode blank)",
